@@ -177,4 +177,18 @@ def make_names_variant(rng, base="AMBER"):
             new = ""
             notes.append(("drop-section", rname))
         names = names[:mt.start()] + new + names[mt.end():]
+    if rng.random() < 0.6:
+        # a section written for another force field of the family: its residue name matches nothing in this parameter
+        # file (legal - the bundled PARSE.names carries such sections), it carries atom rules, and it sits directly in
+        # front of some other section. It must change nothing.
+        sections = list(re.finditer(r"[ \t]*<residue>.*?</residue>[ \t]*\n?", names, re.S))
+        if sections:
+            at = rng.choice(sections).start()
+            ghost = rng.choice(["ZZQ", "XQ.*", "QQ[0-9]", "ASHX", "GLHX"])
+            pairs = rng.sample([("HD1", "HD2"), ("HE1", "HE2"), ("H", "HN"), ("CA", "CB"), ("O", "OXT"), ("N", "C"),
+                                ("HB2", "HB3"), ("CG", "CD"), ("HG", "HA"), ("OP1", "OP2"), ("H2", "H3")], rng.randint(1, 4))
+            body = "".join(f"    <atom>\n      <name>{a}</name>\n      <useatomname>{b}</useatomname>\n    </atom>\n"
+                           for a, b in pairs)
+            names = names[:at] + f"  <residue>\n    <name>{ghost}</name>\n{body}  </residue>\n" + names[at:]
+            notes.append(("ghost-section", ghost, tuple(pairs)))
     return names, notes
